@@ -15,7 +15,7 @@ func propC05() Property {
 		ID: "C05",
 		Explanation: "The end-to-end property composes fault sequences of two engines; no static argument bounds it. One necessary condition is structural and invisible to tests that script the peer: what this engine EMITS during recovery must satisfy what this engine's own RECEIVER demands, because the peer is the same code. " +
 			"R1 (infinity markers): every (BeginString class, EndSeqNo marker) pair the ResendRequest builder can emit is accepted as 'to the end' by the ResendRequest handler's clip guard. R2 (replay stamping): every header tag whose absence makes the too-low/PossDup gate reject a replay is set by the replay stamper; every tag the SequenceReset handler reads is set by the gap-fill builder. " +
-			"R3 (persist regardless of link): the application-side send path reaches the numbering/persist step with no connected/logged-on guard on the way (messages sent while disconnected are numbered and stored for later replay), and functions that drop the send queue mutate the store only in the tabulated drop-and-reset. R4 and R5 are the two per-engine rules the two-engine argument leans on most directly, shared with C01 and C17: the receiver's expected number advances exactly once and only after the too-high/too-low gate accepted the message (a second advance skips a message that is then discarded as too-low and never delivered), and the file store appends the message at the end of the body file and indexes that offset (otherwise a store reopened after an engine restart overwrites old messages and a later replay sends bytes that were never sent in that slot). R6 (shared with C03): the gap fills of a replay are bound to the right numbers, placed before the message that follows the skipped ones, and the tail gap fill ends at a cursor the replay callback advances past every message it dealt with. R7 (shared with C02): the send queue is only appended to, emptied, or cut at the index whose send failed — a queued ResendRequest is never dropped by a failed non-blocking send. R8 (shared with C12): a frame handed to the session is a copy, never a view of the read buffer that later reads overwrite while the message waits in the stash.",
+			"R3 (persist regardless of link): the application-side send path reaches the numbering/persist step with no connected/logged-on guard on the way (messages sent while disconnected are numbered and stored for later replay), and functions that drop the send queue mutate the store only in the tabulated drop-and-reset. R4 and R5 are the two per-engine rules the two-engine argument leans on most directly, shared with C01 and C17: the receiver's expected number advances exactly once and only after the too-high/too-low gate accepted the message (a second advance skips a message that is then discarded as too-low and never delivered), and the file store appends the message at the end of the body file and indexes that offset (otherwise a store reopened after an engine restart overwrites old messages and a later replay sends bytes that were never sent in that slot). R6 (shared with C03): the gap fills of a replay are bound to the right numbers, placed before the message that follows the skipped ones, and the tail gap fill ends at a cursor the replay callback advances past every message it dealt with. R7 (shared with C02): the send queue is only appended to, emptied, or cut at the index whose send failed — a queued ResendRequest is never dropped by a failed non-blocking send. R8 (shared with C12): a frame handed to the session is a copy, never a view of the read buffer that later reads overwrite while the message waits in the stash. R9: the connection's write loop returns only when the outbound channel has been closed (the session sends to it with blocking sends while holding its locks). R10 (shared with C02): numbering, persisting and queueing happen in one critical section.",
 		NotDecided: "everything else in C05: delivery exactly once and in order across connection drops, engine restarts, heartbeat timing. Evidence states this verbatim; the claim is this narrow emit/accept agreement only.",
 		Rules: []RuleDef{
 			{ID: "C05-R1", Desc: "emitted infinity markers ⊆ accepted infinity markers", Min: 2, Run: c05R1},
@@ -26,6 +26,8 @@ func propC05() Property {
 			{ID: "C05-R6", Desc: "a replay covers the requested range: gap-fill binding, placement and tail cursor (= C03-R5)", Min: 10, Run: c03R5},
 			{ID: "C05-R7", Desc: "nothing queued for sending is dropped: FIFO queue shape (= C02-R4)", Min: 5, Run: c02R4},
 			{ID: "C05-R8", Desc: "frames handed to the session do not alias the read buffer (= C12-R2)", Min: 5, Run: c12R2},
+			{ID: "C05-R9", Desc: "the write loop drains the outbound channel until it is closed", Min: 1, Run: c05R9},
+			{ID: "C05-R10", Desc: "numbering, persisting and queueing are one critical section (= C02-R1)", Min: 8, Run: c02R1},
 		},
 	}
 }
